@@ -42,7 +42,7 @@ func init() {
 				n, sweep = 4000, 10
 			}
 			return []runner.Phase{
-				{Name: "scenarios", Variant: "race", Cases: n, Run: c01case, CaseTimeout: 180 * time.Second, Required: []string{"late_delivered_then_reused", "calls_ok", "calls_server_error", "calls_timeout", "calls_ctx", "window_scenarios", "answers_split_across_the_read_timeout", "answers_longer_than_a_mebibyte", "write_stalls_between_two_frames"}},
+				{Name: "scenarios", Variant: "race", Cases: n, Run: c01case, CaseTimeout: 180 * time.Second, Required: []string{"late_delivered_then_reused", "calls_ok", "calls_server_error", "calls_timeout", "calls_ctx", "window_scenarios", "answers_split_across_the_read_timeout", "answers_longer_than_a_mebibyte", "write_stalls_between_two_frames", "rows_read_after_later_answers_arrived"}},
 				{Name: "stream-sweep", Variant: "plain", Cases: sweep, Shards: 2, Run: c01sweep, CaseTimeout: 300 * time.Second, Required: []string{"ids_swept"}},
 			}
 		},
@@ -89,6 +89,7 @@ func c01cfg(c *runner.Ctx, i int) *echoCfg {
 		ec.reusePhase = 0
 	}
 	ec.bigFrames = r.Intn(4) == 0
+	ec.pHoldIter = []int{0, 10, 40}[r.Intn(3)]
 	if i%4 == 2 {
 		// family: a few answers arrive in two pieces with a gap longer than the driver's read timeout in between
 		// (each costs 1.5 x timeout on its connection, so only a handful)
@@ -173,6 +174,7 @@ func c01case(c *runner.Ctx, i int) {
 	}
 	c.Add("answers_split_across_the_read_timeout", res.splits)
 	c.Add("answers_longer_than_a_mebibyte", res.hugeSent)
+	c.Add("rows_read_after_later_answers_arrived", res.heldIters)
 	if ec.stallAtBoundary {
 		c.Add("write_stalls_between_two_frames", 1)
 	}
